@@ -23,7 +23,7 @@ ASSUMPTIONS = [
     "coverage and exclusivity by R3 (vf/ref/acl.py); cases where the ideal coverage and the implementation's documented winner rule disagree (known findings of C06) are skipped and counted",
     "programs yield rows in negated form only in the dedicated scenario (a negated line owned literally by one generator and through its positive rule by another)",
 ]
-FLOORS = {"quick": {"runs": 1200, "outcome_ok": 300, "outcome_generator_error": 150, "outcome_not_exclusive": 60, "block_contexts_entered": 2000, "annotated_runs": 80, "annotated_rows": 200, "cases_with_a_silent_generator": 300, "cases_with_three_differently_written_rules": 300, "comment_rows_yielded_inside_blocks": 200, "acl_comment_lines": 3000, "rules_mentioning_interface_not_at_start": 4000, "multi_line_yields_all_inside_the_first_line": 500, "cases_with_device_rows_claimed_by_several_generators": 800, "cases_with_a_negated_line_owned_literally_and_through_its_positive_rule": 300, "reused_generator_object_runs": 150, "tuple_yields_with_an_inline_list": 300, "tuple_yields_with_a_lazy_iterable": 300, "cases_with_a_global_and_a_nested_local_rule_of_one_text": 300, "cases_with_a_line_holding_an_unusual_separator_character": 300, "cases_on_brace_syntax_vendors": 300, "acl_texts_indented_with_tabs": 300, "reused_generator_objects_whose_earlier_run_ended_inside_a_block": 60},
+FLOORS = {"quick": {"runs": 1200, "outcome_ok": 300, "outcome_generator_error": 150, "outcome_not_exclusive": 60, "block_contexts_entered": 2000, "annotated_runs": 80, "annotated_rows": 200, "cases_with_a_silent_generator": 300, "cases_with_three_differently_written_rules": 300, "comment_rows_yielded_inside_blocks": 200, "acl_comment_lines": 3000, "rules_mentioning_interface_not_at_start": 4000, "multi_line_yields_all_inside_the_first_line": 500, "cases_with_device_rows_claimed_by_several_generators": 800, "cases_with_a_negated_line_owned_literally_and_through_its_positive_rule": 300, "reused_generator_object_runs": 150, "tuple_yields_with_an_inline_list": 300, "tuple_yields_with_a_lazy_iterable": 300, "cases_with_a_global_and_a_nested_local_rule_of_one_text": 300, "cases_with_a_line_holding_an_unusual_separator_character": 300, "cases_on_brace_syntax_vendors": 300, "acl_texts_indented_with_tabs": 300, "cases_with_a_generator_that_has_no_acl_method": 150, "reused_generator_objects_whose_earlier_run_ended_inside_a_block": 60},
           "thorough": {"runs": 50000, "outcome_ok": 12000, "outcome_generator_error": 6000, "outcome_not_exclusive": 2500, "block_contexts_entered": 80000, "annotated_runs": 3000, "annotated_rows": 8000, "cases_with_a_silent_generator": 12000, "cases_with_three_differently_written_rules": 12000, "comment_rows_yielded_inside_blocks": 4000, "acl_comment_lines": 60000, "rules_mentioning_interface_not_at_start": 80000}}
 VENDORS = ["huawei", "cisco", "arista", "nexus"]
 HEADS = ["a", "b", "c", "interface", "router", "x", "ntp source-interface", "c passive-interface"]  # the word `interface` only makes a rule not deletable by default at its start
@@ -341,7 +341,7 @@ def exclusive_walk(tree, locals_, globals_, prefix, path=()):
     return None
 
 
-def make_case(seed, silent=False, ranked=False, negx=False, globx=False, oddx=False, bracev=False):
+def make_case(seed, silent=False, ranked=False, negx=False, globx=False, oddx=False, bracev=False, noacl=False):
     rng = random.Random(seed)
     vname = rng.choice(VENDORS)
     if bracev:
@@ -415,6 +415,14 @@ def make_case(seed, silent=False, ranked=False, negx=False, globx=False, oddx=Fa
         gens[b]["program"].append(["b", blk_, [["y", "%s %s" % (fam_, xrng.choice(KEYS))]]])
         gens[b]["paths"] = [list(x_) for x_ in ref_paths(gens[b]["program"])]
         gens[b]["acl"] = list(gens[b]["acl"]) + [A.AclRule("zone *", children=[A.AclRule("%s ~" % fam_)])]
+    if noacl and gens:
+        # a generator that writes lines for the vendor and declares no ACL for it (the method is missing): nothing it yields is covered
+        arng = random.Random(seed ^ 0x40AC)
+        g_ = arng.choice(gens)
+        g_["acl"], g_["no_acl_method"], g_["mode"] = [], True, "none"
+        if not g_["paths"]:
+            g_["program"].append(["y", "x k1"])
+            g_["paths"] = [list(x_) for x_ in ref_paths(g_["program"])]
     if oddx and gens:
         # a line holding a character some libraries take for a line boundary (form feed, vertical tab, NEL, U+2028 - pasted into a description
         # by an inventory system): the generator yielded ONE line, the only row separator of a generator's text is the newline
@@ -467,12 +475,14 @@ def add_legacy(seed, gens):
     return "legacy k1\nlegacy k2 x\n" if lrng.random() < 0.7 else "legacy k1\n"
 
 
-def check_case(seed, acc, silent=False, ranked=False, negx=False, globx=False, oddx=False, bracev=False):
+def check_case(seed, acc, silent=False, ranked=False, negx=False, globx=False, oddx=False, bracev=False, noacl=False):
     from annet.generators import GeneratorError
     from annet.annlib.patching import AclNotExclusiveError, AclError
     from annet.vendors import registry_connector
     from vf import harness_gen as H
-    vname, gens, rng = make_case(seed, silent, ranked, negx, globx, oddx, bracev)
+    vname, gens, rng = make_case(seed, silent, ranked, negx, globx, oddx, bracev, noacl)
+    if noacl:
+        acc.count("cases_with_a_generator_that_has_no_acl_method")
     if bracev:
         acc.count("cases_on_brace_syntax_vendors")
     if oddx:
@@ -501,8 +511,10 @@ def check_case(seed, acc, silent=False, ranked=False, negx=False, globx=False, o
             text = re.sub(r"(?m)^((?:    )+)", lambda m_: "\t" * (len(m_.group(1)) // 4), text)
             acc.count("acl_texts_indented_with_tabs", 1 if "\n\t" in text else 0)
         texts.append(text)
+        if g.get("no_acl_method"):
+            text = None      # the class has run_<vendor> and no acl_<vendor> at all
         real.append(H.make_partial(g["name"], vname, text, make_run(g["program"], counter)))
-    w = {"seed": seed, "silent": silent, "ranked": ranked, "negx": negx, "globx": globx, "oddx": oddx, "bracev": bracev, "vendor": vname, "generators": [{"name": g["name"], "program": g["program"], "acl": A.render(g["acl"]), "acl_mode": g["mode"]} for g in gens]}
+    w = {"seed": seed, "silent": silent, "ranked": ranked, "negx": negx, "globx": globx, "oddx": oddx, "bracev": bracev, "noacl": noacl, "vendor": vname, "generators": [{"name": g["name"], "program": g["program"], "acl": A.render(g["acl"]), "acl_mode": g["mode"]} for g in gens]}
     exp = expected_outcome(gens, prefix)
     if exp[0] == "skip":
         acc.count("skipped_known_acl_mechanism")
@@ -612,7 +624,7 @@ def c10_rows(tree):
 
 def run_shard(spec, acc):
     if spec["mode"] == "replay":
-        check_case(spec["witness"]["seed"], acc, silent=bool(spec["witness"].get("silent")), ranked=bool(spec["witness"].get("ranked")), negx=bool(spec["witness"].get("negx")), globx=bool(spec["witness"].get("globx")), oddx=bool(spec["witness"].get("oddx")), bracev=bool(spec["witness"].get("bracev")))
+        check_case(spec["witness"]["seed"], acc, silent=bool(spec["witness"].get("silent")), ranked=bool(spec["witness"].get("ranked")), negx=bool(spec["witness"].get("negx")), globx=bool(spec["witness"].get("globx")), oddx=bool(spec["witness"].get("oddx")), bracev=bool(spec["witness"].get("bracev")), noacl=bool(spec["witness"].get("noacl")))
         return
     tier, k, n = spec["tier"], spec["shard"], spec["nshards"]
     total = 4000 if tier == "quick" else 80000
@@ -633,3 +645,5 @@ def run_shard(spec, acc):
             check_case(rng.randrange(1 << 48), acc, oddx=True)
         if j % 5 == 3:
             check_case(rng.randrange(1 << 48), acc, bracev=True)
+        if j % 10 == 4:
+            check_case(rng.randrange(1 << 48), acc, noacl=True)
